@@ -23,7 +23,8 @@
 //            BEFORE the call: a crash leaves `crash <signal>` on the next line (pplv::run_batches)
 //   ops    : addc <con> | refine <con> | refs <k> <con>… | prop <con> | props <maxit> <k> <con>… |
 //            aff <v> <expr> <den> | apre <v> <expr> <den> | gaff <v> <rel> <expr> <den> | gapre <v> <rel> <expr> <den> |
-//            gaffl <lhs> <rel> <rhs> | gaprel <lhs> <rel> <rhs> | baff <v> <lb> <ub> <den> | unc <v> | uncs <k> <v>… |
+//            gaffl <lhs> <rel> <rhs> | gaprel <lhs> <rel> <rhs> | baff <v> <lb> <ub> <den> | bapre <v> <lb> <ub> <den> (run in a
+//            child of its own: result `CRASH:<signal>` when the library dies) | unc <v> | uncs <k> <v>… |
 //            isempty | meet <box> | join <box> | diff <box> | concat <box> | rmhi <nd>
 #include <cstdio>
 #include <cstdlib>
@@ -213,6 +214,7 @@ std::string exec_op(B& b, const std::string& op, const std::vector<std::string>&
     else if (op == "gaffl") b.generalized_affine_image(mk_expr(parse_expr(a[0])), rel_of(a[1]), mk_expr(parse_expr(a[2])));
     else if (op == "gaprel") b.generalized_affine_preimage(mk_expr(parse_expr(a[0])), rel_of(a[1]), mk_expr(parse_expr(a[2])));
     else if (op == "baff") b.bounded_affine_image(Variable(atol(a[0].c_str())), mk_expr(parse_expr(a[1])), mk_expr(parse_expr(a[2])), mpz_class(a[3]));
+    else if (op == "bapre") b.bounded_affine_preimage(Variable(atol(a[0].c_str())), mk_expr(parse_expr(a[1])), mk_expr(parse_expr(a[2])), mpz_class(a[3]));
     else if (op == "unc") b.unconstrain(Variable(atol(a[0].c_str())));
     else if (op == "uncs") { Variables_Set vs; for (size_t i = 1; i < a.size(); ++i) vs.insert(Variable(atol(a[i].c_str()))); b.unconstrain(vs); }
     else if (op == "isempty") { bool r = b.is_empty(); return std::string(r ? "T " : "F ") + show_box(b); }
@@ -235,6 +237,17 @@ void run_event(pplv::Journal& J, const std::string& id, const std::string& boxs,
   head += " =>";
   // written before the call (no newline yet: the result completes the line; a crash leaves it unterminated)
   { const char* p = head.data(); size_t n = head.size(); while (n) { ssize_t w = ::write(1, p, n); if (w <= 0) break; p += w; n -= (size_t)w; } }
+  if (op == "bapre") {
+    // bounded_affine_preimage dies with SIGFPE on well-formed arguments (KF-C03-1): run it in a child of its own,
+    // so that the rest of the batch survives; the result ` CRASH:<signal>` completes the line
+    fflush(stdout);
+    pid_t pid = fork();
+    if (pid == 0) { std::string res = exec_op<B>(b, op, a); J.line(" " + res); _exit(0); }
+    int st = 0; waitpid(pid, &st, 0);
+    if (WIFSIGNALED(st)) J.line(std::string(" CRASH:") + pplv::signal_name(WTERMSIG(st)));
+    else if (!WIFEXITED(st) || WEXITSTATUS(st) != 0) J.line(" CRASH:exit");
+    return;
+  }
   std::string res = exec_op<B>(b, op, a);
   J.line(" " + res);
 }
@@ -367,7 +380,10 @@ void gen_events(pplv::Journal& J, pplv::Rng& g, long batch, long per) {
     else if (k < 29 && n) { op = "gapre"; a = {std::to_string(v), rel, show_expr(G.expr(n, 0)), G.den().get_str()}; }
     else if (k < 31) { op = "gaffl"; unsigned s = g.below(4); a = {show_expr(G.expr(n, s == 0 ? 2 : s == 1 ? 0 : 1)), rel, show_expr(G.expr(n, 0))}; }
     else if (k < 33) { op = "gaprel"; unsigned s = g.below(4); a = {show_expr(G.expr(n, s == 0 ? 2 : s == 1 ? 0 : 1)), rel, show_expr(G.expr(n, 0))}; }
-    else if (k < 35 && n) { op = "baff"; a = {std::to_string(v), show_expr(G.expr(n, 0)), show_expr(G.expr(n, 0)), G.den().get_str()}; }
+    else if (k < 34 && n) { op = "baff"; a = {std::to_string(v), show_expr(G.expr(n, 0)), show_expr(G.expr(n, 0)), G.den().get_str()}; }
+    else if (k < 35 && n) { op = "bapre"; RE l = G.expr(n, 0), u = G.expr(n, 0);
+      if (g.chance(2, 3)) { if (l.c[v] == 0) l.c[v] = G.coef(true); if (u.c[v] == 0) u.c[v] = G.coef(true); }   // both bounds mention var
+      a = {std::to_string(v), show_expr(l), show_expr(u), G.den().get_str()}; }
     else if (k == 35 && n) { if (g.chance(1, 2)) { op = "unc"; a = {std::to_string(v)}; } else { op = "uncs"; std::vector<std::string> vs; for (size_t i = 0; i < n; ++i) if (g.chance(1, 2)) vs.push_back(std::to_string(i)); a.push_back(std::to_string(vs.size())); for (auto& s : vs) a.push_back(s); } }
     else if (k == 36) { op = "isempty"; }
     else if (k == 37) { unsigned s = g.below(3); op = s == 0 ? "meet" : s == 1 ? "join" : "diff"; B y = make_box<B>(G.box(n)); a = {show_box(y)}; }
